@@ -84,12 +84,17 @@ CHECKS = {
     "C11": _c("exploration",
               "Deductive (unbounded): 14 positional listings as definitional filters, left-to-right and right-to-left records, inversions / non-inversions as "
               "lexicographically sorted complete pair listings, strong fixed points, 30 count/list wrappers (count = len(listing)), monotonicity tests, is_involution. "
-              "Bounded: every statistic and table entry BY NAME against independent definitions on all perms <=7/8, distributions, preservation tools.", _BNOTE,
+              "Bounded: every statistic and table entry BY NAME against independent definitions on all perms <=7/8 and block-structured perms of length 9-24, holeyness on seeded "
+              "perms of length 8-12 vs all 2^n position sets, fresh-result check (callers mutating returned containers), distributions, preservation tools.", _BNOTE,
               "deductive listing contracts (pyvc/z3) + bounded run-time contracts vs independent definitions"),
     "C12": _c("exploration",
-              "Deductive: the sortable predicates are 'the operator's output (k passes) is the identity' (operators under ASSUMED contracts), _is_sorted.  Bounded: sorting "
-              "operators vs explicit device simulations, pattern characterisations, pass counts, Simion-Schmidt bijection on full domains up to n=8/9.", _BNOTE,
-              "bounded run-time contracts vs device simulations + deductive wrappers"),
+              "Deductive (all lengths): stack_sort, pop_stack_sort, bubble_sort and their recursive helpers are proved equal to a non-recursive description of one pass of "
+              "the device (stack discipline as a pairwise order condition with ghost position maps; reversal of the maximal decreasing runs; min(prefix maximum, next entry)), "
+              "each with an explicit inverse witness for 'the result is a permutation'; the sortable predicates are 'the operator's output (k passes) is the identity'; _is_sorted. "
+              "quick_sort under an ASSUMED contract.  Bounded: sorting operators vs explicit device simulations (all perms <=7/8, seeded 9-14, block-structured 9-20), pattern "
+              "characterisations, pass counts, Simion-Schmidt bijection on full domains up to n=8/9, families.",
+              _BNOTE + "; Skolem spec functions RUN-DECOMPOSITION / PREFIX-ARGMAX / NEXT-GREATER; partial correctness of the recursive helpers",
+              "deductive contracts (pyvc/z3) for three sorting operators + bounded run-time contracts vs device simulations"),
     "C13": _c("exploration",
               "Deductive: is_finite (arity 0-3), four run-shape predicates equal their class definitions, memo invariants, decomposability, and the classification of a "
               "permutation into the ten minimal non-polynomial classes (PolyPerms._find_type: split points into two monotone runs, layered permutations).  Bounded: verdicts vs "
